@@ -100,12 +100,15 @@ def dqScan : Bool → Bytes → Option Bytes
 def dqToSq (lit : Bytes) : Option Bytes := dqScan false lit
 
 /-- The `parts:` loop: a leading run of double-quoted single literals is considered; the loop
-    *breaks* at the first part that is not one, or whose rewritten value is unchanged. -/
+    *breaks* at the first part that is not one (a `$"…"` string is not one, since fix 16d3528), or
+    whose rewritten value is unchanged. -/
 def simplifyWord : List Node → List Node × Bool
   | [] => ([], false)
   | p :: rest =>
     match p with
     | .mk .dbl dattrs _ [.mk .lit _ v []] =>
+      if dattrs.getD 0 0 != 0 then (p :: rest, false)   -- dq.Dollar: `$"…"` is left alone (break)
+      else
       match dqToSq v with
       | none =>
         let r := simplifyWord rest
@@ -173,7 +176,10 @@ def inlineSubshell : Nat → List Node → List Node × Bool
 def unquoteParams (x : Node) : Node × Bool :=
   match x with
   | .mk .word a v [.mk .dbl _ _ [pe]] =>
-    if pe.ty == .paramExp then (.mk .word a v [pe], true) else (x, false)
+    -- since fix 2e8be01: not when the expansion carries a word (`pe.Exp != nil || pe.Repl != nil`)
+    if pe.ty == .paramExp && pe.attrs.getD 12 0 == 0 && pe.attrs.getD 10 0 == 0 then
+      (.mk .word a v [pe], true)
+    else (x, false)
   | _ => (x, false)
 
 def removeParensTest : Nat → Node → Node × Bool
@@ -335,8 +341,10 @@ def ansiC : Nat → Bytes → Bytes
 def sqValue (dollar : Bool) (v : Bytes) : Bytes :=
   if dollar then ansiC (v.length + 1) v else v
 
-/-- What `simplifyWord` does to one `"lit"` / `$"lit"` part: `some nv` = replaced by `'nv'` / `$'nv'`. -/
-def rewriteDq (lit : Bytes) : Option Bytes :=
+/-- What `simplifyWord` does to one `"lit"` (`dollar = false`) / `$"lit"` part: `some nv` = replaced
+    by `'nv'`; a `$"…"` string is never rewritten. -/
+def rewriteDq (dollar : Bool) (lit : Bytes) : Option Bytes :=
+  if dollar then none else
   match dqToSq lit with
   | some nv => if nv = lit then none else some nv
   | none => none
@@ -605,8 +613,10 @@ def Arith.assigned (P : Prims) : Arith → List Bytes
 
 /-- The word shapes `unquoteParams` distinguishes; `p` identifies a parameter expansion. -/
 inductive TWord
-  | bare (p : Nat)       -- $p / ${p…} unquoted
-  | quoted (p : Nat)     -- "$p" / "${p…}": a Word holding one DblQuoted holding one ParamExp
+  | bare (p : Nat)       -- $p / ${p} / ${#p} / ${p[i]} … unquoted: an expansion without operator word
+  | quoted (p : Nat)     -- the same inside double quotes: a Word holding one DblQuoted holding one ParamExp
+  | bareW (p : Nat)      -- ${p:-word} / ${p#word} / ${p/pat/repl} … unquoted (ParamExp.Exp or .Repl set)
+  | quotedW (p : Nat)    -- "${p:-word}" …
   | other (w : Nat)      -- any other word
   deriving Repr, DecidableEq, Inhabited
 
@@ -627,6 +637,7 @@ def strip : Test → Test
   | paren x => strip x
   | e => e
 
+/-- `unquoteParams`: only an expansion without operator word loses its quotes. -/
 def unqW : TWord → TWord
   | .quoted p => .bare p
   | w => w
@@ -677,9 +688,11 @@ end Test
 
 /-- Abstract `[[ ]]` semantics: strings, emptiness, a pattern-match oracle, opaque other operators. -/
 structure TSem where
-  /-- value of parameter expansion `p` inside double quotes (`true`) / unquoted (`false`): in
-      `[[ ]]` there is no splitting or globbing, but the *word* of `${p:-word}` is processed
-      differently in the two forms. -/
+  /-- value of an expansion without operator word: in `[[ ]]` there is no splitting or globbing,
+      so it is the same string with and without the double quotes. -/
+  sval : Nat → Bytes
+  /-- value of an expansion with an operator word inside double quotes (`true`) / unquoted
+      (`false`): the *word* of `${p:-'x'}`, `${p:-~}`, `${p:-\x}` is processed differently. -/
   pval : Bool → Nat → Bytes
   /-- value of any other word -/
   wval : Nat → Bytes
@@ -696,15 +709,19 @@ namespace TSem
 variable (S : TSem)
 
 def value : TWord → Bytes
-  | .bare p => S.pval false p
-  | .quoted p => S.pval true p
+  | .bare p => S.sval p
+  | .quoted p => S.sval p
+  | .bareW p => S.pval false p
+  | .quotedW p => S.pval true p
   | .other w => S.wval w
 
 /-- The right-hand side of `==`, `!=`, `=~`: a quoted expansion is literal text, an unquoted one is
     an active pattern / regular expression. -/
 def pattern : TWord → Bytes × Bool
-  | .bare p => (S.pval false p, true)
-  | .quoted p => (S.pval true p, false)
+  | .bare p => (S.sval p, true)
+  | .quoted p => (S.sval p, false)
+  | .bareW p => (S.pval false p, true)
+  | .quotedW p => (S.pval true p, false)
   | .other w => S.wpat w
 
 def eval : Test → Bool
@@ -723,20 +740,6 @@ def eval : Test → Bool
     else S.binOp op (S.value a) (S.value b)
 
 end TSem
-
-def TWord.QuoteInsensitive (S : TSem) : TWord → Prop
-  | .quoted p => S.pval true p = S.pval false p
-  | _ => True
-
-/-- Parameters whose quoted and unquoted values agree (true of `$p`, `${p}`, `${#p}`, `${p[i]}`, …;
-    false of e.g. `${p:-'x'}`, `${p:-~}`, `${p:-\x}`). -/
-def Test.QuoteInsensitive (S : TSem) : Test → Prop
-  | .word w => w.QuoteInsensitive S
-  | .paren x => x.QuoteInsensitive S
-  | .not x => x.QuoteInsensitive S
-  | .un _ w => w.QuoteInsensitive S
-  | .logic _ x y => x.QuoteInsensitive S ∧ y.QuoteInsensitive S
-  | .bin _ a b => a.QuoteInsensitive S ∧ b.QuoteInsensitive S
 
 /-! ### B4. Nested subshells: a tiny status/output model -/
 
@@ -824,9 +827,16 @@ def Arith.depth : Arith → Nat
   | .binary _ x y => max x.depth y.depth + 1
   | .tern x a b => max x.depth (max a.depth b.depth + 1) + 1
 
+/-- `${n:-x}`: `hasExp` (attribute 12) is set and the word is the last kid. -/
+def wordPE (n : Bytes) : Node :=
+  .mk .paramExp [0, 0, 0, 0, 0, 0, 0, 0, 0, 0, 0, 0, 1, 0, 1] []
+    [nilNode, .mk .lit [] n [], nilNode, nilNode, .mk .list [] [] [], nilNode, nilNode, nilNode, nilNode, litWord [120]]
+
 def TWord.toNode : TWord → Node
   | .bare p => .mk .word [] [] [simplePE false [UInt8.ofNat p]]
   | .quoted p => .mk .word [] [] [.mk .dbl [0] [] [simplePE false [UInt8.ofNat p]]]
+  | .bareW p => .mk .word [] [] [wordPE [UInt8.ofNat p]]
+  | .quotedW p => .mk .word [] [] [.mk .dbl [0] [] [wordPE [UInt8.ofNat p]]]
   | .other w => litWord [UInt8.ofNat w]
 
 def Test.toNode : Test → Node
